@@ -550,7 +550,7 @@ Section Source.
   Definition obs (s : lat) (sigma : Q) (kernel : string) (p : P) : part K :=
     {| ppos := (pfv "x" p, pfv "y" p, pfv "z" p);
        pattr := fun a => pfk a p;
-       pmom_nan := fv_isnan (pfv "px" p) || fv_isnan (pfv "py" p) || fv_isnan (pfv "py" p);
+       pmom_nan := fv_isnan (pfv "px" p) || fv_isnan (pfv "py" p) || fv_isnan (pfv "pz" p);
        pkern := obs_kern s sigma kernel p |}.
   (* the temporary lattice of one particle *)
   Definition temp_obj (dx dy dz : Q) (m : Z * Z * Z) : lat :=
@@ -961,7 +961,7 @@ Section Source.
       destruct (String.eqb kernel "gaussian") eqn:Eg.
       - destruct (Hmvn [pfv "x" p; pfv "y" p; pfv "z" p] 3%Z) as [kv Ekv]. rewrite Ekv. cbn [rbind]. exact (Rest2 kv Ekv).
       - destruct (String.eqb kernel "covariant") eqn:Ec; [|reflexivity].
-        cbn [pmom_nan obs]. destruct (fv_isnan (pfv "px" p) || fv_isnan (pfv "py" p) || fv_isnan (pfv "py" p)); [reflexivity|].
+        cbn [pmom_nan obs]. destruct (fv_isnan (pfv "px" p) || fv_isnan (pfv "py" p) || fv_isnan (pfv "pz" p)); [reflexivity|].
         destruct (Hmvn [Fin (0 # 1); Fin (0 # 1)] 2%Z) as [kv Ekv]. rewrite Ekv. cbn [rbind]. exact (Rest2 kv Ekv). }
     assert (RestN : sf None = Err ValueError) by reflexivity.
     subst qs qm.
